@@ -167,6 +167,7 @@ type shardResult struct {
 	viols                       []viol
 	inconclusive                []string
 	samples                     []any
+	sampled                     map[string]bool
 	expected, complete          int
 }
 
@@ -186,7 +187,7 @@ func pickOther(all map[string]rcorpus.Comp, key string, i int) *rcorpus.Comp {
 // runShard drives one process (one buffer size, a subset of the components)
 // and judges its log.
 func runShard(c *core.Ctx, b *rcorpus.Built, bufsize int, comps []rcorpus.Comp, all map[string]rcorpus.Comp) *shardResult {
-	res := &shardResult{bufsize: bufsize, positions: map[string]int{}, expected: len(comps)}
+	res := &shardResult{bufsize: bufsize, positions: map[string]int{}, expected: len(comps), sampled: map[string]bool{}}
 	jobs := []rcorpus.Job{{Op: "config", BufSize: bufsize, Hook: true}}
 	others := map[string]*rcorpus.Comp{}
 	for i := range comps {
@@ -303,11 +304,12 @@ func runShard(c *core.Ctx, b *rcorpus.Built, bufsize int, comps []rcorpus.Comp, 
 				Rule: f.rule, Detail: f.detail, L: ref.L()}
 			res.viols = append(res.viols, viol{cs})
 		}
-		if len(res.samples) < 2 && ev.Ev == "wf" && ev.K > 0 && ev.K == ref.L()/2 {
+		if ev.Ev == "wf" && ev.Out.Fired && ref.L() > 40 && ref.L() < 800 && ev.K == ref.L()/2 && !res.sampled[typ] && len(res.samples) < 3 {
+			res.sampled[typ] = true
 			res.samples = append(res.samples, map[string]any{"component": ev.Key, "bufsize": bufsize, "fault": typ, "offset": ev.K,
 				"doc_len": ref.L(), "received": ev.Out.N, "write_calls": ev.Out.Calls, "err": errText(ev.Out.Err)})
 		}
-		if len(res.samples) < 4 && ev.Ev == "xf" && ev.Out.Err != nil && ev.Out.Err.AsTempl && (ev.Site == "t3" || ev.Site == "x2") {
+		if len(res.samples) < 5 && ev.Ev == "xf" && ev.Out.Err != nil && ev.Out.Err.AsTempl && (ev.Site == "t3" || ev.Site == "x2") {
 			res.samples = append(res.samples, map[string]any{"component": ev.Key, "bufsize": bufsize, "failing_site": ev.Site, "err": ev.Out.Err.Msg,
 				"templ_error_file": ev.Out.Err.File, "templ_error_line": ev.Out.Err.Line, "received": ev.Out.N, "doc_len": ref.L()})
 		}
@@ -390,7 +392,7 @@ func bufSizes(c *core.Ctx) []int {
 
 func components(c *core.Ctx) []rcorpus.Comp {
 	comps := rcorpus.StaticComps()
-	return append(comps, rcorpus.RandomTrees(c.Rand("trees"), c.Pick(40, 400), 14)...)
+	return append(comps, rcorpus.RandomTrees(c.Rand("trees"), c.Pick(190, 2500), 14)...)
 }
 
 func Run(c *core.Ctx) {
@@ -429,7 +431,7 @@ func Run(c *core.Ctx) {
 	}
 	sort.SliceStable(comps, func(i, j int) bool { return weight(comps[i]) > weight(comps[j]) })
 	sizes := bufSizes(c)
-	nshard := c.Pick(5, 5)
+	nshard := c.Pick(5, 12)
 	type task struct {
 		bufsize int
 		comps   []rcorpus.Comp
